@@ -8,5 +8,5 @@ cd "$here"
 tools/audit_determinism.sh quick 3 > validation/audit_quick.log 2>&1
 SWEEP_OUT=/tmp/sweep_q tools/seed_sweep.sh quick 2 25 > validation/sweep_quick_seeds_2_25.log 2>&1
 tools/mutant_matrix.sh quick > validation/mutant_matrix_quick.log 2>&1
-SWEEP_OUT=/tmp/sweep_t tools/seed_sweep.sh thorough 1 3 > validation/sweep_thorough_seeds_1_3.log.new 2>&1 && mv validation/sweep_thorough_seeds_1_3.log.new validation/sweep_thorough_seeds_1_3.log
+SWEEP_OUT=/tmp/sweep_t tools/seed_sweep.sh thorough 1 3 > validation/sweep_thorough_seeds_1_3.log 2>&1
 echo done > validation/DONE
